@@ -476,6 +476,18 @@ def run_lifecycle(sc):
             th = threading.Thread(target=slow, daemon=True)
             th.start()
             time.sleep(0.15)
+        if sc.get('blocked_writer'):
+            # the peer stays connected but stops reading; a request larger than the socket buffers is being written when the
+            # session is closed: the worker is inside its write at that moment
+            srv.stop_reading.set()
+            time.sleep(0.05)
+            m.async_mode = True
+            big = new_ele('big')
+            big.text = 'x' * sc['blocked_writer']
+            m.dispatch(big)
+            m.async_mode = False
+            m.timeout = 1.0
+            time.sleep(0.4)
         how = sc.get('how', 'close_session')
         if sc.get('no_close_reply'):
             m.timeout = 0.5
@@ -505,10 +517,12 @@ def run_lifecycle(sc):
         calls['closed'] = True
         res['close_dt'] = time.time() - t0
         res['connected_after'] = m.connected
-        deadline = time.time() + 1.5
+        deadline = time.time() + sc.get('worker_deadline', 1.5)
         while time.time() < deadline and sess.is_alive():
             time.sleep(0.02)
         res['worker_alive'] = sess.is_alive()
+        res['worker_deadline'] = sc.get('worker_deadline', 1.5)
+        srv.stop_reading.clear()
         calls['closed_done'] = True
         res['eof_seen'] = srv.eof_seen.wait(1.0)
         time.sleep(0.2)
